@@ -114,15 +114,99 @@ pub struct Scene {
     /// slim bodies: link boxes cover only the middle 40 % of each link (fewer permanent self-collisions)
     #[serde(default)]
     pub slim: bool,
+    /// use the bundled RX160 STL meshes (and the RX160 geometry) for links and base instead of generated boxes
+    #[serde(default)]
+    pub rx160: bool,
+}
+
+/// Geometry of one body on the oracle side: a generated box, or a mesh loaded from a file (bundled RX160 STL).
+#[derive(Clone)]
+pub enum Geom {
+    Box(MeshSpec),
+    Data(Arc<TriData>, Arc<parry3d::shape::TriMesh>),
+}
+
+impl Geom {
+    pub fn world_tris(&self, pose: &Iso) -> Vec<Tri> {
+        match self {
+            Geom::Box(m) => m.world_tris(pose),
+            Geom::Data(d, _) => d.world_tris(pose),
+        }
+    }
+    pub fn trimesh(&self) -> parry3d::shape::TriMesh {
+        match self {
+            Geom::Box(m) => m.trimesh(),
+            Geom::Data(_, t) => (**t).clone(),
+        }
+    }
+    pub fn lo_hi(&self) -> ([f32; 3], [f32; 3]) {
+        match self {
+            Geom::Box(m) => (m.lo, m.hi),
+            Geom::Data(d, _) => (d.lo, d.hi),
+        }
+    }
+    pub fn centre(&self) -> V3 {
+        let (lo, hi) = self.lo_hi();
+        [(lo[0] + hi[0]) as f64 * 0.5, (lo[1] + hi[1]) as f64 * 0.5, (lo[2] + hi[2]) as f64 * 0.5]
+    }
+    pub fn half(&self) -> V3 {
+        let (lo, hi) = self.lo_hi();
+        [(hi[0] - lo[0]) as f64 * 0.5, (hi[1] - lo[1]) as f64 * 0.5, (hi[2] - lo[2]) as f64 * 0.5]
+    }
+}
+
+/// One closed body wholly inside the other without surface contact (solid vs surface semantics differ): exact for two boxes,
+/// bounding-box containment (conservative: may only add "undecided") when a file mesh is involved.
+pub fn geom_contained(a: &Geom, pa: &Iso, ta: &[Tri], b: &Geom, pb: &Iso, tb: &[Tri]) -> bool {
+    match (a, b) {
+        (Geom::Box(x), Geom::Box(y)) => contained(x, pa, y, pb),
+        _ => {
+            let (la, ha) = set_aabb(ta);
+            let (lb, hb) = set_aabb(tb);
+            let a_in_b = (0..3).all(|k| la[k] >= lb[k] && ha[k] <= hb[k]);
+            let b_in_a = (0..3).all(|k| lb[k] >= la[k] && hb[k] <= ha[k]);
+            a_in_b || b_in_a
+        }
+    }
+}
+
+pub struct Rx160Meshes {
+    pub links: Vec<Geom>,
+    pub base: Geom,
+}
+
+static RX160: std::sync::OnceLock<Option<Rx160Meshes>> = std::sync::OnceLock::new();
+
+/// The bundled Staubli RX160 link meshes (src/tests/data/staubli/rx160/*.stl of the repository).
+pub fn rx160_meshes() -> Option<&'static Rx160Meshes> {
+    RX160
+        .get_or_init(|| {
+            let dir = crate::engine::repo_root().join("src/tests/data/staubli/rx160");
+            let load = |name: &str| -> Option<Geom> {
+                let p = dir.join(name);
+                let m = crate::engine::no_panic(|| rs_read_trimesh::load_trimesh(p.to_str()?, 1.0).ok()).ok()??;
+                Some(Geom::Data(Arc::new(TriData::from_trimesh(&m)), Arc::new(m)))
+            };
+            let mut links = Vec::new();
+            for i in 1..=6 {
+                links.push(load(&format!("link_{}.stl", i))?);
+            }
+            Some(Rx160Meshes { links, base: load("base_link.stl")? })
+        })
+        .as_ref()
+}
+
+pub fn rx160_spec() -> RobotSpec {
+    RobotSpec { a1: 0.15, a2: 0.0, b: 0.0, c1: 0.55, c2: 0.825, c3: 0.625, c4: 0.11, offsets: [0.0; 6], signs: [1; 6], dof: 6 }
 }
 
 pub struct Built {
     pub robot: KinematicsWithShape,
     /// oracle side
-    pub link_mesh: [MeshSpec; 6],
-    pub tool_mesh: Option<MeshSpec>,
-    pub base_mesh: Option<(MeshSpec, Iso)>,
-    pub env_mesh: Vec<(MeshSpec, Iso)>,
+    pub link_mesh: [Geom; 6],
+    pub tool_mesh: Option<Geom>,
+    pub base_mesh: Option<(Geom, Iso)>,
+    pub env_mesh: Vec<(Geom, Iso)>,
     pub base_iso: Iso,
 }
 
@@ -157,20 +241,32 @@ impl Scene {
     /// attached environment boxes are placed.
     pub fn build(&self, j_ref: &[f64; 6]) -> Built {
         let r = &self.robot;
-        let link_mesh: [MeshSpec; 6] = std::array::from_fn(|i| link_box(r, i, self.link_r[i], self.link_fan[i], self.slim));
-        let tool_mesh = self.tool.map(|(len, w, fan)| MeshSpec { lo: [-w, -w, 0.0], hi: [w, w, len], fan: fan % 2 });
+        let rx = if self.rx160 { rx160_meshes() } else { None };
+        let link_mesh: [Geom; 6] = std::array::from_fn(|i| match rx {
+            Some(m) => m.links[i].clone(),
+            None => Geom::Box(link_box(r, i, self.link_r[i], self.link_fan[i], self.slim)),
+        });
+        let tool_mesh = self.tool.map(|(len, w, fan)| Geom::Box(MeshSpec { lo: [-w, -w, 0.0], hi: [w, w, len], fan: fan % 2 }));
         let base_iso = self.base_iso();
-        let base_mesh = self.base.as_ref().map(|(_, hxy, h, fan)| (MeshSpec { lo: [-hxy[0], -hxy[1], -*h], hi: [hxy[0], hxy[1], 0.0], fan: fan % 2 }, base_iso));
+        let base_mesh = self.base.as_ref().map(|(_, hxy, h, fan)| {
+            (
+                match rx {
+                    Some(m) => m.base.clone(),
+                    None => Geom::Box(MeshSpec { lo: [-hxy[0], -hxy[1], -*h], hi: [hxy[0], hxy[1], 0.0], fan: fan % 2 }),
+                },
+                base_iso,
+            )
+        });
         let poses = self.link_poses(j_ref);
         // environment
-        let mut env_mesh: Vec<(MeshSpec, Iso)> = Vec::new();
+        let mut env_mesh: Vec<(Geom, Iso)> = Vec::new();
         let mut env_bodies: Vec<CollisionBody> = Vec::new();
         for (k, e) in self.env.iter().enumerate() {
             let m = MeshSpec { lo: [-e.half[0], -e.half[1], -e.half[2]], hi: e.half, fan: e.fan % 2 };
             let pose = if e.attach % 8 == 7 {
                 e.free_pose.iso()
             } else {
-                let (body, body_pose, body_id): (&MeshSpec, Iso, usize) = if e.attach % 8 == 6 && tool_mesh.is_some() {
+                let (body, body_pose, body_id): (&Geom, Iso, usize) = if e.attach % 8 == 6 && tool_mesh.is_some() {
                     (tool_mesh.as_ref().unwrap(), poses[5], J_TOOL)
                 } else {
                     let i = (e.attach % 8).min(5) as usize;
@@ -190,7 +286,7 @@ impl Scene {
                 body_pose.mul(&local)
             };
             let pose32 = iso_to_f32(&pose);
-            env_mesh.push((m.clone(), iso_from_f32(&pose32)));
+            env_mesh.push((Geom::Box(m.clone()), iso_from_f32(&pose32)));
             env_bodies.push(CollisionBody { mesh: m.trimesh(), pose: pose32 });
         }
         let opw: Arc<dyn Kinematics> = match &self.limits {
@@ -281,7 +377,7 @@ pub fn relevant_pairs(b: &Built) -> Vec<(BodyId, BodyId)> {
 
 pub struct Placed {
     pub tris: Vec<Tri>,
-    pub mesh: MeshSpec,
+    pub mesh: Geom,
     pub pose: Iso,
 }
 
@@ -309,8 +405,10 @@ pub fn decide_pair(scene: &Scene, b: &Built, j: &[f64; 6], pair: (BodyId, BodyId
     }
     let pa = place(scene, b, j, pair.0);
     let pb = place(scene, b, j, pair.1);
-    let d = mesh_dist(&pa.tris, &pb.tris);
-    let inside = contained(&pa.mesh, &pa.pose, &pb.mesh, &pb.pose);
+    // exact distance up to the largest value that can matter for the decision (beyond it: "far", reported as inf)
+    let cutoff = (limit.max(0.0) as f64) + 2.0 * g + 1e-3;
+    let d = mesh_dist_upto(&pa.tris, &pb.tris, cutoff);
+    let inside = geom_contained(&pa.mesh, &pa.pose, &pa.tris, &pb.mesh, &pb.pose, &pb.tris);
     let verdict = if limit < 0.0 {
         PairVerdict::Undecided // (-1, 0): not a documented setting
     } else if limit == 0.0 {
@@ -322,7 +420,7 @@ pub fn decide_pair(scene: &Scene, b: &Built, j: &[f64; 6], pair: (BodyId, BodyId
                     let mut sh = [0.0; 3];
                     sh[axis] = s * g;
                     let moved: Vec<Tri> = pb.tris.iter().map(|t| [add(&t[0], &sh), add(&t[1], &sh), add(&t[2], &sh)]).collect();
-                    if mesh_dist(&pa.tris, &moved) > 0.0 {
+                    if mesh_dist_upto(&pa.tris, &moved, g) > 0.0 {
                         robust = false;
                         break 'n;
                     }
@@ -413,7 +511,7 @@ pub fn scene_strategy(max_env: usize) -> BoxedStrategy<Scene> {
         .prop_flat_map(|(robot, link_r, link_fan, tool, base, env)| {
             let n_env = env.len();
             let (wt, wb) = (tool.is_some(), base.is_some());
-            safety_strategy(n_env, wt, wb).prop_map(move |safety| Scene { robot, link_r, link_fan, tool, base: base.clone(), env: env.clone(), safety, limits: None, slim: false })
+            safety_strategy(n_env, wt, wb).prop_map(move |safety| Scene { robot, link_r, link_fan, tool, base: base.clone(), env: env.clone(), safety, limits: None, slim: false, rx160: false })
         })
         .boxed()
 }
